@@ -56,6 +56,9 @@ contract(U + "BinaryOpBase.match@pattern",
         "excluded_operator_no_match": "implies(result is not None and exclude_op_pattern is not None, "
                                       "not exclude_op_pattern.match(split_m(op_pattern, srm_line(string), right).upper()))",
         "both_sides_needed": "implies(result is not None, split_l(op_pattern, srm_line(string), right).rstrip() != '' and split_r(op_pattern, srm_line(string), right).lstrip() != '')",
+        "declines_only_for_these_reasons": "implies(split_some(op_pattern, srm_line(string), right) and split_l(op_pattern, srm_line(string), right).rstrip() != '' "
+                                           "and split_r(op_pattern, srm_line(string), right).lstrip() != '' and (exclude_op_pattern is None or "
+                                           "not exclude_op_pattern.match(split_m(op_pattern, srm_line(string), right).upper())), result is not None)",
     },
     raises={"*": {}},
     serves=["C03"],
@@ -97,6 +100,10 @@ contract(U + "UnaryOpBase.match",
         "operator_normalised": "implies(result is not None, nonnull(result)[0] == string[:re_end(op_pattern, string, 0)].rstrip().upper())",
         "excluded_operator_no_match": "implies(result is not None and exclude_op_pattern is not None, "
                                       "not exclude_op_pattern.match(string[:re_end(op_pattern, string, 0)].rstrip().upper()))",
+        # completeness: nothing but a missing operator, an empty operand or an excluded operator makes it decline
+        "declines_only_for_these_reasons": "implies(re_matched(op_pattern, string) and string[re_end(op_pattern, string, 0):].lstrip() != '' and "
+                                           "(exclude_op_pattern is None or not exclude_op_pattern.match(string[:re_end(op_pattern, string, 0)].rstrip().upper())), "
+                                           "result is not None)",
     },
     raises={"*": {}},
     serves=["C03"],
